@@ -44,7 +44,7 @@ def make_spark_api():
             .config("spark.ui.enabled", "false")
             .config("spark.sql.shuffle.partitions", "2")
             .config("spark.default.parallelism", "2")
-            .config("spark.driver.memory", "2g")
+            .config("spark.driver.memory", "4g")
             .getOrCreate()
         )
         _SPARK.sparkContext.setLogLevel("ERROR")
@@ -58,6 +58,12 @@ def make_spark_api():
                 _SPARK.sql(f"DROP TABLE IF EXISTS {t.name}")
         except Exception:  # noqa: BLE001
             pass
+    try:
+        # Splink's Spark backend persists every materialised table; dropping the views does not release them, and a run serves
+        # dozens of cases from one JVM (observed: java.lang.OutOfMemoryError after ~40 cases)
+        _SPARK.catalog.clearCache()
+    except Exception:  # noqa: BLE001
+        pass
     return SparkAPI(spark_session=_SPARK, break_lineage_method="persist", num_partitions_on_repartition=2)
 
 
